@@ -23,7 +23,7 @@ type PathQuery struct {
 	// StartEdge, if set, starts the search with the traversal of the CFG edge [0] -> [1] (From is ignored):
 	// the branch that edge forces at [1] (jump threading) is respected.
 	StartEdge *[2]*ssa.BasicBlock
-	Edge   EdgeFilter      // nil = all edges
+	Edge      EdgeFilter // nil = all edges
 }
 
 // Find returns a witness path (list of instructions that are block heads / the
